@@ -33,6 +33,16 @@ def live_now(s):
     return fabric.fabric_threads(s)
 
 
+def snapshot_live(s):
+    """live delivery threads in the snapshot taken when the execution was aborted (the thread table itself is being torn
+    down by then: reading it would depend on timing)"""
+    live = {"fifo": 0, "lifo": 0}
+    for x in s.snapshot or ():
+        if not x[2] and x[0] in ("fifo active fabric", "lifo active fabric"):
+            live[x[0].split(" ")[0]] += 1
+    return live
+
+
 class Seq(fabric.SeqHarness):
     name = "c13-seq"
 
@@ -90,7 +100,7 @@ class Seq(fabric.SeqHarness):
                 "flag": bool(ao_mod.FiberThreadEvent()._flag)}
 
     def on_abort(self, s, p):
-        return {"threads": [x for x in s.snapshot if not x[2]][:8], "live": live_now(s)}
+        return {"threads": [x for x in s.snapshot if not x[2]][:8], "live": snapshot_live(s)}
 
 
 def enabled(path):
@@ -241,6 +251,119 @@ def canon(path, ex):
             tuple(sorted((tuple(v["q0"]), tuple(v["ao"])) for v in pubs.values())))
 
 
+# ------------------------------------------------------------------ (c) a delivery thread that cannot be launched
+
+class LaunchFault:
+    """start() during which the operating system refuses one of the two delivery threads ('RuntimeError: can't start
+    new thread'), inside every short sequence of start/stop calls; the invariant is evaluated at every scheduling point"""
+    name = "c13-launch-fault"
+    horizon = 20000
+    lock_points = False
+    fair_k = 10 ** 9
+
+    def __init__(self):
+        self._ready = False
+
+    def setup_process(self):
+        if not self._ready:
+            aoenv.install()
+            sched.unmonitor()
+            self._ready = True
+
+    def body(self, s, p):
+        aoenv.reset()
+        fab = ao_mod.ActiveFabric()
+        q0 = fabric.make_queues()[0]
+        st = {"over": None}
+
+        def inv():
+            l = live_now(s)
+            if (l["fifo"] > 1 or l["lifo"] > 1) and st["over"] is None:
+                st["over"] = (dict(l), s.steps)
+        s.on_point = inv
+        s.open_window()
+        steps = []
+        for op in p["ops"]:
+            rec = {"op": op}
+            if op == "start":
+                fab.start()
+            elif op == "stop":
+                fab.stop()
+                rec["live_at_return"] = live_now(s)
+            elif op.startswith("start_fail_"):
+                s.fail_thread_start = {"%s active fabric" % op.split("_")[2]}
+                try:
+                    fab.start()
+                    rec["raised"] = False
+                except RuntimeError as e:
+                    rec["raised"] = str(e)
+                s.fail_thread_start = None
+            s.settle()
+            inv()
+            rec.update({"live": live_now(s), "is_alive": bool(fab.is_alive())})
+            steps.append(rec)
+        # whatever happened: a start() gives exactly one thread per kind, delivery works, a stop() ends both
+        fab.start()
+        s.settle()
+        inv()
+        after_start = live_now(s)
+        alive = bool(fab.is_alive())
+        fab.subscribe(q0, Event(signal="A"))
+        fab.subscribe(q0, Event(signal="A"), queue_type="lifo")
+        fab.publish(Event(signal="A", payload="final"))
+        s.settle()
+        got = fabric.contents(q0)
+        fab.stop()
+        return {"steps": steps, "over": st["over"], "after_start": after_start, "alive_after_start": alive, "q0": got,
+                "after_stop": live_now(s), "thread_exceptions": [x[:3] for x in s.thread_exceptions]}
+
+    def on_abort(self, s, p):
+        return {"threads": [x for x in s.snapshot if not x[2]][:8], "live": snapshot_live(s)}
+
+    def check(self, p, ex):
+        if ex.verdict != "done":
+            return [("%s/launch-fault/%s" % (PID, ex.verdict), "sequence %r ended with %s: %r" % (p["ops"], ex.verdict, ex.obs))]
+        o = ex.obs
+        out = []
+        if o["thread_exceptions"]:
+            out.append(("%s/launch-fault/exception" % PID, "%r: %r" % (p["ops"], o["thread_exceptions"])))
+        if o["over"]:
+            out.append(("%s/launch-fault/two-threads-of-a-kind" % PID, "during %r (a delivery thread could not be launched once) the live delivery "
+                        "threads were %r (scheduler step %d)" % (p["ops"], o["over"][0], o["over"][1])))
+        for k, rec in enumerate(o["steps"]):
+            l = rec["live"]
+            both = l["fifo"] == 1 and l["lifo"] == 1
+            if rec["is_alive"] != both:
+                out.append(("%s/launch-fault/is_alive-wrong/reports=%s" % (PID, rec["is_alive"]), "after %r is_alive() says %s, live delivery "
+                            "threads %r" % (p["ops"][:k + 1], rec["is_alive"], l)))
+            if rec["op"] == "stop" and (rec["live_at_return"]["fifo"] or rec["live_at_return"]["lifo"]):
+                out.append(("%s/launch-fault/stop-left-threads" % PID, "after %r stop() returned with live delivery threads %r" % (
+                    p["ops"][:k + 1], rec["live_at_return"])))
+            if rec["op"] == "start" and not both:
+                out.append(("%s/launch-fault/not-running-after-start" % PID, "after %r live delivery threads %r" % (p["ops"][:k + 1], l)))
+        if o["after_start"] != {"fifo": 1, "lifo": 1} or not o["alive_after_start"]:
+            out.append(("%s/launch-fault/restart" % PID, "after %r + start(): live delivery threads %r, is_alive() %s" % (
+                p["ops"], o["after_start"], o["alive_after_start"])))
+        if o["q0"].count("A/final") != 2:
+            out.append(("%s/launch-fault/delivery" % PID, "after %r + start() a queue subscribed both ways received the publication %d times "
+                        "(expected 2): %r" % (p["ops"], o["q0"].count("A/final"), o["q0"])))
+        if o["after_stop"]["fifo"] or o["after_stop"]["lifo"]:
+            out.append(("%s/launch-fault/final-stop-left-threads" % PID, "after %r + start() + stop(): live delivery threads %r" % (p["ops"], o["after_stop"])))
+        return out
+
+
+def fault_params(tier):
+    import itertools
+    ps = []
+    depth = 2 if tier == "quick" else 3
+    for pre in ((), ("start",), ("start", "stop")):
+        for kind in ("fifo", "lifo"):
+            for n in range(depth + 1):
+                for post in itertools.product(("start", "stop", "start_fail_fifo", "start_fail_lifo"), repeat=n):
+                    ps.append({"ops": list(pre) + ["start_fail_" + kind] + list(post), "bound": 0})
+    return ps
+
+
 # ------------------------------------------------------------------ (b) races
 
 class Race:
@@ -314,7 +437,7 @@ class Race:
                 "thread_exceptions": [x[:3] for x in s.thread_exceptions]}
 
     def on_abort(self, s, p):
-        return {"threads": [x for x in s.snapshot if not x[2]][:8], "live": live_now(s)}
+        return {"threads": [x for x in s.snapshot if not x[2]][:8], "live": snapshot_live(s)}
 
     def check(self, p, ex):
         if ex.verdict != "done":
@@ -374,10 +497,13 @@ def run(tier):
     if tier != "quick":
         ix = explore.extra(st, explore.hybrid(Race("instr")), [dict(p, bound=2.015) for p in race_params("quick") if "ao_start" not in str(p)],
                            2.015, 1200, "fabric-only races at instruction granularity, two deviations of which at most one inside a source line")
+    fst = explore.explore(LaunchFault(), fault_params(tier), 0)
+    st.merge(fst)
     fill(res, st, bound, "line")
     if ix:
         res.coverage["instruction_extra"] = ix
     cov = res.coverage
+    cov["launch_fault_part"] = {"sequences": fst.executions, "distinct_outcomes": len(fst.outcomes), "verdicts": fst.verdicts}
     cov["sequential_part"] = {k: b[k] for k in ("states", "transitions", "verdicts", "depth")}
     cov["race_part"] = {"executions": st.executions, "distinct_outcomes": len(st.outcomes), "verdicts": st.verdicts}
     cov["states"] = b["states"] + max(1, len(st.fps))
@@ -388,7 +514,9 @@ def run(tier):
     cov["samples"] = b["samples"][:1] + cov.get("samples", [])
     cov["rule"] = ("(a) BFS to depth %d over %r on the real fabric + one real active object, quiescence after every op, invariant "
                    "'<= 1 live delivery thread per kind' at every scheduling point, states = (model state, live threads, handles, "
-                   "flag, registry, delivered counts); (b) %s" % (depth, [o[0] for o in OPS], cov["rule"]))
+                   "flag, registry, delivered counts); (b) %s; (c) every sequence pre + start-with-a-refused-thread-launch(fifo|lifo) + "
+                   "<= %d further start/stop/faulty-start calls, then start, subscribe, publish, stop" % (depth, [o[0] for o in OPS], cov["rule"],
+                                                                                                      2 if q else 3))
     res.assumptions = ["a publication made while the fabric does not run, or still waiting when clear() is called, may or may not be delivered later",
                        "an active object that was due to halt but whose fabric was restarted before it woke up is not constrained"]
     return res
@@ -403,7 +531,7 @@ def replay(w):
         for key, what in judge(path, ex):
             res.add(Violation(key, what, w))
         return res
-    ex, v = explore.replay(Race("line"), w)
+    ex, v = explore.replay(LaunchFault() if w.get("harness") == "c13-launch-fault" else Race("line"), w)
     print(ex.verdict, ex.obs)
     for key, what in v:
         res.add(Violation(key, what, w))
